@@ -2,6 +2,7 @@
 from __future__ import annotations
 
 import ast
+import re
 from typing import Any, Dict, FrozenSet, List, Optional, Set, Tuple
 
 from ..core import astutil as A
@@ -109,20 +110,28 @@ class Grammar:
 
 # --------------------------------------------------------------------------------- op table
 def _dispatch_branches(fn: FuncInfo, var_expr: str):
-    """`op = token[1]` ... `if op == "<lit>": return <expr>` -> [(lit, return expr, if node)]"""
-    body = A.body_of(fn.node)
+    """`op = token[1]` ... decisions on `op == "<lit>"` -> (op, {lit: [returning/raising paths taken when op is that literal]}, paths
+    taken when op is none of the tested literals).  Built on guarded paths, so an if-chain, an if/elif/else ladder, inverted guards
+    and an early-exit layout of the same dispatch give the same table; a second branch for a literal is infeasible and never seen."""
     var = None
-    for st in body:
+    for st in A.body_of(fn.node):
         if isinstance(st, ast.Assign) and isinstance(st.targets[0], ast.Name) and norm(st.value) == var_expr:
             var = st.targets[0].id
-    out = []
     if var is None:
-        return None, out
-    for st in body:
-        if isinstance(st, ast.If) and isinstance(st.test, ast.Compare) and norm(st.test.left) == var and isinstance(st.test.ops[0], ast.Eq) \
-                and isinstance(st.test.comparators[0], ast.Constant):
-            out.append((st.test.comparators[0].value, st))
-    return var, out
+        return None, {}, []
+    by_lit: Dict[str, list] = {}
+    other = []
+    pre = f"{var} == "
+    for q in A.gpaths(fn.node):
+        pos = [c for c, p in q.conds if p and c.startswith(pre)]
+        if not pos:
+            other.append(q)
+        for c in pos:
+            try:
+                by_lit.setdefault(ast.literal_eval(c[len(pre):]), []).append(q)
+            except (ValueError, SyntaxError):
+                pass
+    return var, by_lit, other
 
 
 def rule_op_table(ctx, g: Grammar) -> None:
@@ -140,12 +149,9 @@ def rule_op_table(ctx, g: Grammar) -> None:
         if not acts:
             raise AnalysisError(f"C19.op-table: no binary productions for {nt}")
         for _ln, (f, toks) in acts.items():
-            var, branches = _dispatch_branches(f, "token[1]")
+            var, by_lit, other = _dispatch_branches(f, "token[1]")
             if var is None:
                 raise AnalysisError(f"C19.op-table: dispatch variable (token[1]) not found in {f.qual}")
-            by_lit: Dict[str, ast.If] = {}
-            for lit, node in branches:
-                by_lit.setdefault(lit, node)  # the first matching branch wins at run time
             for tok in toks:
                 lit = g.literal_of(tok)
                 construct = f"{PARSER}::BDParser.{nt} `{nt} {tok} {nt}`"
@@ -154,14 +160,14 @@ def rule_op_table(ctx, g: Grammar) -> None:
                 if lit not in ref:
                     raise AnalysisError(f"C19.op-table: no reference semantics for operator {lit!r}")
                 n_branches += 1
-                node = by_lit.get(lit)
-                if node is None:
+                qs = by_lit.get(lit)
+                if not qs:
                     chk.bad("C19.op-table", construct, f"no branch for operator {lit!r}", "every operator the grammar accepts is evaluated", A.loc(PARSER, f.node))
                     continue
-                rets = [s for s in node.body if isinstance(s, ast.Return)]
-                if len(node.body) != 1 or not rets:
+                if any(q.end != "return" or q.last.value is None or len(q.stmts) != 2 for q in qs) or len({norm(q.last) for q in qs}) != 1:
                     raise AnalysisError(f"C19.op-table: branch {lit!r} is not a single return")
-                e = rets[0].value
+                node = qs[0].last
+                e = node.value
                 opcls = left = right = None
                 if isinstance(e, ast.BinOp):
                     opcls, left, right = type(e.op), e.left, e.right
@@ -172,27 +178,29 @@ def rule_op_table(ctx, g: Grammar) -> None:
                 ok = opcls is ref[lit] and left is not None and norm(left) == f"token.{nt}0" and norm(right) == f"token.{nt}1"
                 chk.decide(ok, "C19.op-table", construct, f"{lit!r} -> {ref[lit].__name__}(token.{nt}0, token.{nt}1)",
                            f"operator {lit!r} evaluates `{norm(e)}`", f"token.{nt}0 {lit} token.{nt}1 with Python operator {ref[lit].__name__}", A.loc(PARSER, node))
-            # parenthesised form: falls through to `return token[1]`
-            last = A.body_of(f.node)[-1]
-            chk.decide(isinstance(last, ast.Return) and norm(last.value) == "token[1]", "C19.op-table", f"{PARSER}::BDParser.{nt} `LPAREN {nt} RPAREN`",
-                       "parenthesised expression returns its inner value", norm(last), "return token[1]", A.loc(PARSER, last))
+            # parenthesised form: when no operator matches, the inner value is returned
+            par = [q for q in other if not (q.end == "return" and q.last.value is not None and norm(q.last.value) in ("token[1]", var))]
+            chk.decide(bool(other) and not par, "C19.op-table", f"{PARSER}::BDParser.{nt} `LPAREN {nt} RPAREN`",
+                       "parenthesised expression returns its inner value", "; ".join(norm(q.last) if q.last is not None else q.end for q in par) or "no such path", "return token[1]", A.loc(PARSER, f.node))
     chk.floor("C19.op-table", 18)
     # integer size suffixes
     for name, syms, f in g.rules_of("expr"):
         if syms == ["expr", "PERIOD", "INT_SIZE"]:
-            var, branches = _dispatch_branches(f, "token[1]")
-            dot = [n for lit, n in branches if lit == "."]
+            var, by_lit, _other = _dispatch_branches(f, "token[1]")
+            dot = by_lit.get(".") or []
             if not dot:
                 raise AnalysisError("C19.int-size: '.' branch not found")
             masks = {}
-            for n in ast.walk(dot[0]):
-                if isinstance(n, ast.If) and isinstance(n.test, ast.Compare) and isinstance(n.test.comparators[0], ast.Constant) and n.test.comparators[0].value in INT_SIZE_REF:
-                    r = [s for s in n.body if isinstance(s, ast.Return)]
-                    if r and isinstance(r[0].value, ast.BinOp) and isinstance(r[0].value.op, ast.BitAnd) and norm(r[0].value.left) == "token[0]":
-                        masks[n.test.comparators[0].value] = ctx.prog.fold(r[0].value.right, f.module)
+            for q in dot:
+                for c, pol in q.conds:
+                    mm = re.fullmatch(r"\w+ == '(\w)'", c)
+                    if pol and mm and mm.group(1) in INT_SIZE_REF and q.end == "return":
+                        e = q.last.value
+                        if isinstance(e, ast.BinOp) and isinstance(e.op, ast.BitAnd) and norm(e.left) == "token[0]":
+                            masks.setdefault(mm.group(1), ctx.prog.fold(e.right, f.module))
             for ch, want in INT_SIZE_REF.items():
                 chk.decide(masks.get(ch) == want, "C19.int-size", f"{PARSER}::BDParser.expr `.{ch}`", f"suffix .{ch} masks with {hex(want)}",
-                           f"suffix .{ch} masks with {hex(masks[ch]) if isinstance(masks.get(ch), int) else masks.get(ch)}", f"{hex(want)} (word/half-word/byte = 32/16/8 bits)", A.loc(PARSER, dot[0]))
+                           f"suffix .{ch} masks with {hex(masks[ch]) if isinstance(masks.get(ch), int) else masks.get(ch)}", f"{hex(want)} (word/half-word/byte = 32/16/8 bits)", A.loc(PARSER, f.node))
     # unary
     for name, syms, f in g.rules_of("unary_expr"):
         pass
